@@ -218,6 +218,7 @@ type c42nModel struct {
 	since   map[hash.Hash]int // epoch at which the chunk became durable
 	all     map[hash.Hash][]byte
 	order   []hash.Hash // every chunk ever put, in creation order
+	probes  int         // chunks read back on intermediate steps (each costs git two processes)
 }
 
 func c42nSortedHashes(m map[hash.Hash][]byte) []hash.Hash {
@@ -258,13 +259,16 @@ func (m *c42nModel) verify(rt *rapid.T, ctx context.Context, c *c42nClient, why 
 		}
 		absentWant = append(absentWant, h) // only pending elsewhere, or dropped with its writer
 	}
+	if !full && len(absentWant) > 2*m.probes {
+		absentWant = absentWant[len(absentWant)-2*m.probes:]
+	}
 	for i := 0; i < 3; i++ {
 		absentWant = append(absentWant, hash.Of([]byte(fmt.Sprintf("never written %d %s", i, why))))
 	}
 	keys := c42nSortedHashes(mustHave)
-	if !full && len(keys) > 12 {
+	if maxProbe := m.probes; !full && len(keys) > maxProbe {
 		// probe a deterministic subset on intermediate steps
-		step := len(keys)/12 + 1
+		step := len(keys)/maxProbe + 1
 		var sub []hash.Hash
 		for i := 0; i < len(keys); i += step {
 			sub = append(sub, keys[i])
@@ -321,7 +325,7 @@ func c42nCase(rt *rapid.T, rec *vh.Recorder) {
 	switch n := rapid.IntRange(0, 99).Draw(rt, "backend"); {
 	case n < 8:
 		kind = "local"
-	case n < 17:
+	case n < 12:
 		kind = "git"
 	default:
 		kind = "inmem"
@@ -335,18 +339,26 @@ func c42nCase(rt *rapid.T, rec *vh.Recorder) {
 	}
 	nClients := rapid.IntRange(1, 3).Draw(rt, "nClients")
 	maxSteps := 14
-	if kind != "inmem" {
+	if kind == "local" {
 		maxSteps = 8
+	} else if kind == "git" {
+		maxSteps = 6
 	}
 	nSteps := rapid.IntRange(4, maxSteps).Draw(rt, "nSteps")
-	m := &c42nModel{durable: map[hash.Hash][]byte{}, since: map[hash.Hash]int{}, all: map[hash.Hash][]byte{}}
+	m := &c42nModel{durable: map[hash.Hash][]byte{}, since: map[hash.Hash]int{}, all: map[hash.Hash][]byte{}, probes: 12}
+	if kind == "git" {
+		m.probes = 4
+	}
 	var ops []string
 	ops = append(ops, fmt.Sprintf("%s noConjoin=%v memTable=%d part=%d clients=%d", kind, w.noConjoin, w.memTable, w.gitPart, nClients))
 	clients := make([]*c42nClient, nClients)
 	var open []*nbs.NomsBlockStore
+	closed := map[*nbs.NomsBlockStore]bool{}
 	defer func() {
 		for _, s := range open {
-			_ = s.Close()
+			if !closed[s] {
+				_ = s.Close()
+			}
 		}
 	}()
 	for i := range clients {
@@ -462,6 +474,7 @@ func c42nCase(rt *rapid.T, rec *vh.Recorder) {
 			c.viewRoot, c.viewEpoch = m.root, m.epoch
 			ops = append(ops, fmt.Sprintf("c%d:rebase", c.id))
 		case op < 90: // reopen
+			closed[c.st] = true
 			if err := c.st.Close(); err != nil {
 				rt.Fatalf("client %d Close: %v", c.id, err)
 			}
@@ -499,6 +512,7 @@ func c42nCase(rt *rapid.T, rec *vh.Recorder) {
 			put(bc, chunks.NewChunk(c42nBytes(seedN, 33)))
 			commit(bc, 0)
 			m.verify(rt, ctx, bc, fmt.Sprintf("step %d (bulk writer)", step), true)
+			closed[st] = true
 			if err := st.Close(); err != nil {
 				rt.Fatalf("closing the bulk writer: %v", err)
 			}
